@@ -68,31 +68,41 @@ func (s *sandbox) run(real bool, cwdRel string, args []string, stdin string) dri
 			shadow = ""
 		}
 	}
-	r := s.env.Private["cli"].(*drive.Server).Run(s.path(cwdRel), args, stdin)
+	// the same run once more in process on a second copy: a run is a function of its inputs (no dependence on map
+	// iteration order or on what the process did before)
+	again := ""
 	if shadow != "" {
-		defer os.RemoveAll(shadow)
+		again = s.Root + ".again"
+		os.RemoveAll(again)
+		if err := exec.Command("cp", "-a", s.Root, again).Run(); err != nil {
+			again = ""
+		}
+	}
+	r := s.env.Private["cli"].(*drive.Server).Run(s.path(cwdRel), args, stdin)
+	compare := func(copyRoot, who string, run func(cwd string, args []string) drive.Result) {
+		defer os.RemoveAll(copyRoot)
 		rargs := make([]string, len(args))
 		for i, a := range args {
-			rargs[i] = strings.ReplaceAll(a, s.Root, shadow)
+			rargs[i] = strings.ReplaceAll(a, s.Root, copyRoot)
 		}
-		rr := drive.RunReal(filepath.Join(s.env.BinDir, "gopatch.real"), filepath.Join(shadow, cwdRel), rargs, stdin)
-		norm := func(x string) string { return strings.ReplaceAll(x, shadow, s.Root) }
+		rr := run(filepath.Join(copyRoot, cwdRel), rargs)
+		norm := func(x string) string { return strings.ReplaceAll(x, copyRoot, s.Root) }
 		var diff string
 		switch {
 		case r.Panic != "" || rr.Panic != "":
 			// crashes are judged by the caller
 		case rr.Exit != r.Exit:
-			diff = fmt.Sprintf("exit status %d (real binary) vs %d (mainCmd.Run in process)", rr.Exit, r.Exit)
+			diff = fmt.Sprintf("exit status %d (%s) vs %d (mainCmd.Run in process)", rr.Exit, who, r.Exit)
 		case norm(rr.Stdout) != r.Stdout:
-			diff = fmt.Sprintf("stdout %q (real binary) vs %q", norm(rr.Stdout), r.Stdout)
+			diff = fmt.Sprintf("stdout %q (%s) vs %q", norm(rr.Stdout), who, r.Stdout)
 		case norm(rr.Stderr) != r.Stderr:
-			diff = fmt.Sprintf("stderr %q (real binary) vs %q", norm(rr.Stderr), r.Stderr)
+			diff = fmt.Sprintf("stderr %q (%s) vs %q", norm(rr.Stderr), who, r.Stderr)
 		default:
 			a, err1 := drive.Snap(s.Root)
-			b, err2 := drive.Snap(shadow)
+			b, err2 := drive.Snap(copyRoot)
 			if err1 == nil && err2 == nil {
 				if d := a.Diff(b, true); d != "" {
-					diff = "resulting trees differ:\n" + d
+					diff = "resulting trees differ (" + who + "):\n" + d
 				}
 			}
 		}
@@ -100,6 +110,16 @@ func (s *sandbox) run(real bool, cwdRel string, args []string, stdin string) dri
 			prev, _ := s.env.Private["divergence"].(string)
 			s.env.Private["divergence"] = prev + fmt.Sprintf("gopatch %s: %s\n", strings.Join(args, " "), diff)
 		}
+	}
+	if shadow != "" {
+		compare(shadow, "real binary", func(cwd string, a []string) drive.Result {
+			return drive.RunReal(filepath.Join(s.env.BinDir, "gopatch.real"), cwd, a, stdin)
+		})
+	}
+	if again != "" {
+		compare(again, "second run in process", func(cwd string, a []string) drive.Result {
+			return s.env.Private["cli"].(*drive.Server).Run(cwd, a, stdin)
+		})
 	}
 	return r
 }
